@@ -1,11 +1,28 @@
 """C13 — generator: the consumer sees exactly the yielded sequence, in every access style."""
+import atexit
+import os
 import re
+import tempfile
 from vlib.runner import Spec, Suite
 
 HARNESS = ("h_generator", ["h_generator.cpp"], {})
 
 ACCESS = ("next", "anext", "call", "begin", "inc", "pinc", "for")
 REJECT = ("busy", "gone", "n/a", "noit", "bad-op", "blocked", "bad")
+
+
+_hang_files = []
+
+
+def _cleanup_hang_files():
+    for f in _hang_files:
+        try:
+            os.unlink(f)
+        except OSError:
+            pass
+
+
+atexit.register(_cleanup_hang_files)
 
 
 def parse_script(line):
@@ -56,6 +73,13 @@ class GenSuite(Suite):
         self.corpus_prefix = "c13_" if self.prof.get("corpus") else None
     nontrivial_rule = ("at least two accesses were served and (two access styles were mixed or the body suspended on a "
                        "pending operation or ended with an exception)")
+
+    def harness_args(self):
+        """a fresh hang-budget file per harness run (see the watchdog in h_generator.cpp): after a few hung operations the
+        remaining cases of that run are skipped instead of each waiting for the watchdog"""
+        p = os.path.join(tempfile.gettempdir(), "c13_hang_%d_%d" % (os.getpid(), len(_hang_files)))
+        _hang_files.append(p)
+        return ("--hangfile", p)
 
     # ------------------------------------------------------------------ generator
     def gen_script(self, rng, mode):
@@ -200,6 +224,8 @@ class GenSuite(Suite):
         ys, ending, acts = parse_script(lines[1])
         n = len(ys)
         ops = lines[1:]
+        if out and out[0].startswith("skipped"):
+            return msgs          # not executed: the run had already exhausted its hang budget (reported as crashes)
         if len(out) != len(ops):
             return ["lost: %d output lines for %d input lines" % (len(out), len(ops))]
 
